@@ -705,7 +705,12 @@ def main(argv):
     cov["rule"] = prop.get("rule", "")
     cov["samples"] = samples or [{"note": "no cases generated"}]
     if hist:
-        cov["input_histogram"] = dict(sorted(hist.items()))
+        # (an evidence file is a record for a reader: the 300 most frequent labels, the rest summed up)
+        if len(hist) > 300:
+            top = sorted(hist.items(), key=lambda kv: -kv[1])
+            hist = dict(top[:300])
+            hist["(%d rarer labels)" % (len(top) - 300)] = sum(v for _, v in top[300:])
+        cov["input_histogram"] = dict(sorted((k[:160], v) for k, v in hist.items()))
     cov["obligations"] = proof.get("obligations", 0)
     cov["discharged"] = proof.get("discharged", 0)
     cov["theorems"] = proof.get("theorems", [])
